@@ -76,6 +76,7 @@ ChachaBad(e) ==
        ref == ChaCha20Xor(Bytes(e.key), Bytes(e.nonce), ctr, inp)
    IN (IF Bytes(e.out) = ref THEN {} ELSE {IF Wraps(ctr, Len(inp)) THEN "C09.keystream-mismatch/counter-wrap" ELSE "C09.keystream-mismatch"})
       \cup (IF Bytes(e.out2) = inp THEN {} ELSE {"C09.not-involution"})
+      \cup (IF "inpl" \in DOMAIN e /\ Bytes(e.inpl) # ref THEN {"C09.keystream-mismatch/in-place"} ELSE {})
 
 CidCounter(cid) == CounterOfLE(cid[1], cid[2], cid[3], cid[4])
 
